@@ -264,14 +264,38 @@ fn number_inputs() -> Vec<Vec<u8>> {
         ] {
             v.push(s.to_string());
         }
+        // long digit strings (19..40 digits, fixed pseudo-random): whether an accumulator that has
+        // wrapped looks small again depends on the digits, a handful of round values does not tell
+        let mut x = 0x9E3779B97F4A7C15u64;
+        for i in 0..400u64 {
+            let len = 19 + (i % 22) as usize;
+            let mut d = String::new();
+            for j in 0..len {
+                x ^= x << 13;
+                x ^= x >> 7;
+                x ^= x << 17;
+                let c = (x % 10) as u8;
+                d.push((b'0' + if j == 0 && c == 0 { 1 } else { c }) as char);
+            }
+            v.push(d);
+        }
+        // multiples of 2^64 and their neighbours: the wrapped value is 0, 1, 5 ...
+        for k in ["184467440737095516160", "184467440737095516165", "1844674407370955161601", "55340232221128654848", "55340232221128654849", "18446744073709551616000000"] {
+            v.push(k.to_string());
+        }
         v
     };
+    let n_fixed = 25usize;
     let mut out = Vec::new();
     for sign in ["", "-", "+"] {
-        for m in &mags {
+        for (mi, m) in mags.iter().enumerate() {
             let num = format!("{}{}", sign, m);
             for t in [b':', b'$', b'*'] {
                 for pad in 0..64usize {
+                    // the long pseudo-random strings only at a few offsets (the table is large already)
+                    if mi >= n_fixed && !matches!(pad, 0 | 7 | 19 | 20 | 33) {
+                        continue;
+                    }
                     // the number is element k of an array whose earlier elements take `pad` bytes
                     let mut buf = Vec::new();
                     if pad == 0 {
